@@ -191,6 +191,16 @@ def run(ctx):
                     for f in forms:
                         f2 = f.clone(params=p2.params, prods=[])
                         v = J(f2)
+                        if v.outcome == 'disagree' and v.result is not None:
+                            # deviation rule of C01-SLICE-PARAM-STALE-...: pony answered with the slice/index bounds of the FIRST
+                            # execution; KNOWN only if the reference with those stale bounds reproduces pony's rows exactly
+                            import re
+                            stale = {k: p.params[k] for k in f2.params if re.search(r'\[[^\]\[]*\b%s\b[^\]\[]*\]' % k, f2.src)
+                                     and p.params[k] != f2.params[k]}
+                            if stale and ('select(' in f2.src or ' in (' in f2.src):
+                                v3 = qdiff.judge(env, f2.clone(params=dict(f2.params, **stale)), dev_rules=dev, shape_rules=shp, result=v.result)
+                                if v3.outcome in ('agree', 'known'):
+                                    v.outcome, v.findings = 'known', ['C01-SLICE-PARAM-STALE-IN-OPTIMIZED-SUBQUERY-SOURCE']
                         ctx.count('reexecution.' + v.outcome)
                         _book(ctx, env, v, prod_used, prod_agree)
     # ---- part 3: LIKE battery -- every hostile pattern x predicate x (constant | parameter | attribute) --------------
